@@ -604,7 +604,8 @@ def run(ctx):
     corpus = load_corpus(edge)
     ctx.cov["corpus_cases"] = len(corpus)
     cases = []
-    nfam = dict(random=ncase, planted=ncase, history=ncase // 3, converge=ncase, schedule=ncase // 4)
+    nfam = dict(random=ncase, planted=ncase, history=ncase // 3, converge=ncase, schedule=ncase // 4) if ctx.quick else \
+           dict(random=ncase, planted=ncase // 2, history=ncase // 6, converge=ncase // 3, schedule=ncase // 10)
     gens = dict(random=gen_case, planted=gen_planted_case, history=gen_history_case, converge=gen_converge_case,
                 schedule=gen_schedule_case)
     for fam in ("random", "planted", "history", "converge", "schedule"):
